@@ -173,6 +173,7 @@ def check(ctx):
         "refused_runs": agg["refused"], "timeouts": agg["timeouts"], "distinct_outcomes": agg["outcomes"],
         "read_set_min_max": [min(rs), max(rs)] if rs else [], "k_completed": 1 if quick else 2,
     }
+    cov.update(bee.vacuity(agg))
     return {"level": LEVEL, "coverage": cov,
             "assumptions": ["gcc/g++ as semantic oracle; equal pp-token streams imply equal object code (audited in thorough)",
                             "Objective-C and Java are not compiled (no ObjC runtime headers; javac cost): C and C++ only"]}
